@@ -149,7 +149,8 @@ pub fn rand_ops(r: &mut Rng, maxlen: u64) -> Vec<Op> {
     (0..n).map(|_| match r.below(16) {
         0 => Op::Ver(r.below(4) as u8),
         1 => Op::Type(r.below(4) as u8),
-        2 => Op::Code(if r.chance(1, 2) { r.pick(&CODES) } else { r.below(256) }),
+        // 512 + b: MessageClass::Reserved(b) even when b has a name (Reserved(0) is sent with its payload; it is not Empty)
+        2 => Op::Code(match r.below(8) { 0..=3 => r.pick(&CODES), 4 => r.pick(&[512u64, 512 + 1, 512 + 0x45, 256, 257]), _ => r.below(256) }),
         3 => Op::Mid(r.pick(&MIDS)),
         4 => { let l = r.below(9) as usize; Op::Token(r.bytes(l)) }
         5 => { let l = r.pick(&[0usize, 1, 2, 10, 100]); let mut b = r.bytes(l); if l > 0 && r.chance(1, 4) { b[0] = 0xFF; } Op::Payload(b) }
